@@ -2727,44 +2727,23 @@ template< size_t L> inline
 {
    if (pos1 >= mLength)
       return *this;
-   size_t  copy_len = count2;
-   if (pos1 + count1 >= mLength)
-   {
-      // replace from pos until the end of the string
-      if (pos1 + copy_len > L)
-         copy_len = L - pos1;
-      std::memcpy( &mString[ pos1], &str[ pos2], copy_len);
-      mLength = pos1 + copy_len;
-      mString[ mLength] = '\0';
-   } else if (count1 == copy_len)
-   {
-      std::memcpy( &mString[ pos1], &str[ pos2], copy_len);
-   } else if (count1 < copy_len)
-   {
-      // goodbyexfarewell
-      // replace x by ' and ':  replace( 7, 1, " and ");
-      // str.length() == 5
-      // make space:  goodbyex....farewell
-      // copy:        goodbye and farewell
-      std::memmove( &mString[ pos1 + copy_len - count1 + 1],
-         &mString[ pos1 + count1],
-         mLength - pos1 - count1);
-      std::memcpy( &mString[ pos1], &str[ pos2], copy_len);
-      mLength = mLength - count1 + copy_len;
-      mString[ mLength] = '\0';
-   } else // count1 > copy_len
-   {
-      // goodbyexxxxxxxxfarewell
-      // replace xxxxxxxx by ' and ':  replace( 7, 8, " and ");
-      // str.length() == 5
-      // adjust end of string:  goodbyexxxxxfarewell
-      // copy:                  goodbye and farewell
-      std::memmove( &mString[ pos1 + copy_len], &mString[ pos1 + count1],
-         mLength - pos1 - count1);
-      std::memcpy( &mString[ pos1], &str[ pos2], copy_len);
-      mLength -= (count1 - copy_len);
-      mString[ mLength] = '\0';
-   } // end if
+   // the part of the string behind the replaced range, [tail_pos, mLength)
+   // count1 can be max(64bit), so we cannot calc pos1 + count1
+   const size_t  tail_pos = (count1 >= mLength - pos1) ? mLength : pos1 + count1;
+   // never copy more than fits between pos1 and the end of the buffer
+   const size_t  copy_len = std::min( count2, L - pos1);
+   // goodbyexfarewell
+   // replace x by ' and ':  replace( 7, 1, " and ");
+   // move tail:  goodbyex....farewell
+   // copy:       goodbye and farewell
+   // the tail is cut off when the result would be longer than the buffer
+   const size_t  tail_len = std::min( mLength - tail_pos, L - pos1 - copy_len);
+
+   std::memmove( &mString[ pos1 + copy_len], &mString[ tail_pos], tail_len);
+   std::memcpy( &mString[ pos1], &str[ pos2], copy_len);
+   mLength = pos1 + copy_len + tail_len;
+   mString[ mLength] = '\0';
+
    return *this;
 } // FixedString< L>::replaceImpl
 
